@@ -60,7 +60,8 @@ def mini(n_isa, n_gs, n_st, hl, icvn='00401', quirk=None):
                     body.append('NM1*85*2*N%d' % h)
                 if quirk == 'shapes':
                     body += ['CLM*A*1***11:B:1*Y', 'REF*A*B**', ' REF*C*D', 'SV1*HC:99213::*1*UN', 'AAA*',
-                             'N3*100 MAIN ST ', ' NM1*41*2*ACME *****46*TGJ23 ', '  REF*E*F :G ']
+                             'N3*100 MAIN ST ', ' NM1*41*2*ACME *****46*TGJ23 ', '  REF*E*F :G ', 'N3*123 MAIN ST*          ', 'DMG*D8*19700101* ',
+                             'REF*G* : ']
                 elif quirk == 'hl2':
                     body += ['HL*%d*9*22*0' % (hl + 1)]
                 st = '%04d' % (1 if quirk == 'dupst' else s)
